@@ -6,7 +6,10 @@ for d in sorted(glob.glob('/verif/seeded/*/meta.json')):
     m = json.load(open(d)); sid = os.path.basename(os.path.dirname(d))
     runs = m.get('check_runs', {})
     q = runs.get('quick'); t = runs.get('thorough')
+    sup = m.get('superseded')
     def cell(r):
+        if sup and (not r or not r['detected']):
+            return 'superseded: ' + sup
         if not r: return 'not run'
         return ('caught (%ds): %s' % (r['wall_s'], ', '.join(b.split('/', 1)[-1] for b in r['new_buckets'][:2]))) if r['detected'] else 'MISSED'
     note = m.get('strengthened', '')
